@@ -797,6 +797,11 @@ compare:
 		int c = rf_pack_consumed(&pk), r = rf_pack_remaining(&pk);
 		if (c != M.cur) return fail(sit, "consumed", "rf_pack_consumed = %d, expected %ld", c, M.cur);
 		if (r != M.n - M.cur) return fail(sit, "remaining", "rf_pack_remaining = %d, expected %ld", r, M.n - M.cur);
+		/* the same two readings in the type the functions return (no conversion to int on the way): an overflow must be
+		 * visible as a NEGATIVE remainder to a caller that writes rf_pack_remaining(&pk) < 0 (seeded/C12-r5) */
+		double dc = (double) rf_pack_consumed(&pk), dr = (double) rf_pack_remaining(&pk);
+		if (dc != (double) M.cur) return fail(sit, "consumed-type", "rf_pack_consumed as a number = %g, expected %ld", dc, M.cur);
+		if (dr != (double) (M.n - M.cur)) return fail(sit, "remaining-type", "rf_pack_remaining as a number = %g, expected %ld", dr, M.n - M.cur);
 	}
 
 	if (count) {
